@@ -4,6 +4,7 @@
     domain in this run; the specification is the reference hexahedron of Base/Hex.v. *)
 From Coq Require Import List Bool Arith ZArith Reals.
 From CB Require Import Base.Hex Base.Vec3 Model.OpAddr Model.FaceGeom Proofs.OpAddrFrame Proofs.FaceGeom.
+From CB Require Model.OpFaceHist Proofs.OpFaceHist.
 From CB Require Import Gen.C10.Tables.
 Import ListNotations.
 Open Scope nat_scope.
@@ -212,6 +213,59 @@ Proof.
   - eapply step_effect_corner; eassumption.
 Qed.
 
+(** ** sequences of face calls (any length, any shift counts) with side faces requested in between.
+    The single-call behaviour of the history model Model/OpFaceHist.v is the tabulated behaviour of
+    the code (whole table), ... *)
+Definition C10_history_model_is_table_stmt : Prop :=
+  (forall q pe, In (q, pe) face_invert ->
+     pe = (OpFaceHist.invert_pts [0; 1; 2; 3], OpFaceHist.invert_eds [0; 1; 2; 3])) /\
+  (forall q k pe, In (q, k, pe) face_shift ->
+     pe = (OpFaceHist.shift_list k [0; 1; 2; 3], OpFaceHist.shift_list k [0; 1; 2; 3])) /\
+  (forall q c pe, In (q, c, pe) face_reorient ->
+     pe = (OpFaceHist.reorient_list c [0; 1; 2; 3], OpFaceHist.reorient_list c [0; 1; 2; 3])).
+
+Theorem C10_history_model_is_table : C10_history_model_is_table_stmt.
+Proof.
+  split; [|split].
+  - finite_forall face_invert (fun x : nat * (list nat * list nat) =>
+      pe_eqb (snd x) (OpFaceHist.invert_pts [0; 1; 2; 3], OpFaceHist.invert_eds [0; 1; 2; 3])).
+    intros q pe Hin. specialize (H _ Hin). simpl in H. unfold pe_eqb in H. apply andb_true_iff in H.
+    destruct H as [Ha Hb]. apply list_eqb_eq in Ha, Hb. destruct pe. simpl in *. subst. reflexivity.
+  - finite_forall face_shift (fun x : nat * Z * (list nat * list nat) =>
+      pe_eqb (snd x) (OpFaceHist.shift_list (snd (fst x)) [0; 1; 2; 3], OpFaceHist.shift_list (snd (fst x)) [0; 1; 2; 3])).
+    intros q k pe Hin. specialize (H _ Hin). simpl in H. unfold pe_eqb in H. apply andb_true_iff in H.
+    destruct H as [Ha Hb]. apply list_eqb_eq in Ha, Hb. destruct pe. simpl in *. subst. reflexivity.
+  - finite_forall face_reorient (fun x : nat * nat * (list nat * list nat) =>
+      pe_eqb (snd x) (OpFaceHist.reorient_list (snd (fst x)) [0; 1; 2; 3], OpFaceHist.reorient_list (snd (fst x)) [0; 1; 2; 3])).
+    intros q c pe Hin. specialize (H _ Hin). simpl in H. unfold pe_eqb in H. apply andb_true_iff in H.
+    destruct H as [Ha Hb]. apply list_eqb_eq in Ha, Hb. destruct pe. simpl in *. subst. reflexivity.
+Qed.
+
+(** ... and for EVERY history each face still holds its own four points, every face edge still joins
+    the two points it joined at the start, and every side face requested at any moment consists of
+    the four points sitting at that side's corners at that moment. *)
+Definition C10_history_stmt : Prop :=
+  forall cs : list OpFaceHist.fcall,
+    OpFaceHist.state_ok (snd (OpFaceHist.frun OpFaceHist.finit cs)) = true /\
+    OpFaceHist.obs_ok (snd (OpFaceHist.frun OpFaceHist.finit cs)) = true /\
+    forall sd, fst (OpFaceHist.frun OpFaceHist.finit (cs ++ [OpFaceHist.GetFace sd])) =
+               fst (OpFaceHist.frun OpFaceHist.finit cs)
+               ++ [OpFaceHist.face_obs (snd (OpFaceHist.frun OpFaceHist.finit cs)) sd].
+
+Theorem C10_history : C10_history_stmt.
+Proof.
+  intro cs. split; [exact (OpFaceHist.history_state_ok cs) | split; [exact (OpFaceHist.history_obs_ok cs) |]].
+  intro sd. exact (OpFaceHist.get_face_is_current cs sd).
+Qed.
+
+Example C10_history_example :
+  OpFaceHist.frun OpFaceHist.finit
+    [OpFaceHist.FShift true 1; OpFaceHist.GetFace Top; OpFaceHist.FInvert false; OpFaceHist.OpInvert; OpFaceHist.GetFace Front]
+  = ([[7; 4; 5; 6]; [7; 4; 3; 2]],
+     {| OpFaceHist.bpts := [7; 4; 5; 6]; OpFaceHist.tpts := [3; 2; 1; 0];
+        OpFaceHist.beds := [17; 14; 15; 16]; OpFaceHist.teds := [12; 11; 10; 13] |}).
+Proof. vm_compute. reflexivity. Qed.
+
 Print Assumptions C10_invert.
 Print Assumptions C10_shift.
 Print Assumptions C10_shift_mod4.
@@ -227,3 +281,5 @@ Print Assumptions C10_get_face.
 Print Assumptions C10_domain.
 Print Assumptions C10_frame.
 Print Assumptions C10_effect.
+Print Assumptions C10_history_model_is_table.
+Print Assumptions C10_history.
